@@ -35,6 +35,10 @@ pub fn verif_panic() -> !
     requires false
 { unimplemented!() }
 
+// slice::to_vec (assumed): an element-wise clone of the slice
+pub assume_specification<T: Clone> [<[T]>::to_vec] (s: &[T]) -> (r: Vec<T>)
+    ensures r@.len() == s@.len(), forall|i: int| 0 <= i < s@.len() ==> call_ensures(T::clone, (&s@[i],), #[trigger] r@[i]);
+
 /// marker mirror of data/src/simple.rs::SimpleDataType (its supertraits are not used by the extracted code)
 pub trait SimpleDataType: Clone {}
 
@@ -87,6 +91,14 @@ pub open spec fn assoc_value<T: SimpleDataType>(cells: Seq<SimpleData<T>>, item:
         SimpleData::Pair(l, r) => if l < cells.len() { match cells[l as int] { SimpleData::Symbol(x) => if x == s { Some(r) } else { None }, _ => None } } else { None },
         _ => None,
     } } else { None }
+}
+
+/// `x` occurs in `s`
+pub open spec fn occurs(s: Seq<usize>, x: usize) -> bool { exists|k: int| 0 <= k < s.len() && s[k] == x }
+
+/// the address is a value of the data table, not a frame entry
+pub open spec fn is_operand<T: SimpleDataType>(cells: Seq<SimpleData<T>>, a: usize) -> bool {
+    a < cells.len() && !(cells[a as int] is StackFrame)
 }
 
 impl<T: SimpleDataType, A> SimpleGarnishData<T, A> {
